@@ -70,6 +70,7 @@ func runC06(c *Ctx) {
 	c.c06WorkersOnlyBehindTheGuards()
 	c.c06IntoRuleAppliedOnce()
 	c.c06NothingCreatedForACopyThatWillBeRefused()
+	c.c06ClimbingLoopsStopAtTheFixedPoint()
 	c.c06CancellationIsReported()
 	if os.Getenv("GUCHECK_EXPLORE") == "forwarders" {
 		c.exploreForwarders()
@@ -2155,4 +2156,56 @@ func onBoolSideOfCall(e *ssa.Call, m ssa.Instruction) bool {
 		b = p
 	}
 	return false
+}
+
+// c06ClimbingLoopsStopAtTheFixedPoint (Z28): "whatever its arguments, a call terminates". A loop that climbs a path with
+// filepath.Dir ends where Dir has nothing left to remove — Dir(p) == p, which is "/" for an absolute path, "." for a
+// relative or an empty one, a volume on Windows. A loop that waits for one of these spellings (the separator) never ends
+// for the others: Copy(dir, "") and Copy("d", "copy") spin for ever.
+func (c *Ctx) c06ClimbingLoopsStopAtTheFixedPoint() {
+	c.rule("Z28", "a loop of package filesystem that climbs a path with filepath.Dir has an exit on Dir(p) == p (the fixed point, whatever the spelling of the path), not only on a comparison with a constant root", 1)
+	for _, f := range c.srcFuncs(fsPkgRel) {
+		if f.Blocks == nil {
+			continue
+		}
+		n := 0
+		allInstrs(f, func(in ssa.Instruction) {
+			phi, ok := in.(*ssa.Phi)
+			if !ok || phi.Type().String() != "string" {
+				return
+			}
+			climbs := false
+			for _, e := range phi.Edges {
+				if cl, ok := e.(*ssa.Call); ok && calleeFull(&cl.Call) == "path/filepath.Dir" && len(cl.Call.Args) == 1 && cl.Call.Args[0] == ssa.Value(phi) {
+					climbs = true
+				}
+			}
+			if !climbs {
+				return
+			}
+			key := fname(outermost(f)) + "/climbing-loop-stops-at-the-fixed-point"
+			if n > 0 {
+				key += "#" + strconv.Itoa(n)
+			}
+			n++
+			c.FuncsSeen[fname(outermost(f))] = true
+			// an exit test Dir(p) == p
+			fixed := false
+			allInstrs(f, func(j ssa.Instruction) {
+				bo, ok := j.(*ssa.BinOp)
+				if !ok || (bo.Op != token.EQL && bo.Op != token.NEQ) {
+					return
+				}
+				for _, pair := range [][2]ssa.Value{{bo.X, bo.Y}, {bo.Y, bo.X}} {
+					if cl, ok := pair[0].(*ssa.Call); ok && calleeFull(&cl.Call) == "path/filepath.Dir" && len(cl.Call.Args) == 1 && cl.Call.Args[0] == pair[1] {
+						if pair[1] == ssa.Value(phi) {
+							fixed = true
+						}
+					}
+				}
+			})
+			c.check(fixed, "Z28", key, c.ipos(phi), "the loop has an exit where filepath.Dir returns its argument",
+				"the loop climbs with filepath.Dir and has no exit on Dir(p) == p: it ends only where the path takes a particular spelling (the separator), which a relative path, an empty name or a Windows volume never takes — filepath.Dir settles on \".\" and the call never returns: Copy(dir, \"\") and Copy(\"d\", \"copy\") of a directory spin for ever")
+		})
+	}
 }
